@@ -75,6 +75,10 @@ func (p *stubLogProvider) OnTerminate() {
 	p.impl.OnTerminate()
 }
 func (p *stubLogProvider) Receive(msg *net.Message, from bus.Channel) error {
+	// only call and post messages run a method
+	if msg.Header.Type != net.Call && msg.Header.Type != net.Post {
+		return nil
+	}
 	// action dispatch
 	switch msg.Header.Action {
 	case 100:
@@ -267,6 +271,10 @@ func (p *stubLogListener) OnTerminate() {
 	p.impl.OnTerminate()
 }
 func (p *stubLogListener) Receive(msg *net.Message, from bus.Channel) error {
+	// only call and post messages run a method
+	if msg.Header.Type != net.Call && msg.Header.Type != net.Post {
+		return nil
+	}
 	// action dispatch
 	switch msg.Header.Action {
 	case 100:
@@ -529,6 +537,10 @@ func (p *stubLogManager) OnTerminate() {
 	p.impl.OnTerminate()
 }
 func (p *stubLogManager) Receive(msg *net.Message, from bus.Channel) error {
+	// only call and post messages run a method
+	if msg.Header.Type != net.Call && msg.Header.Type != net.Post {
+		return nil
+	}
 	// action dispatch
 	switch msg.Header.Action {
 	case 100:
